@@ -163,6 +163,14 @@ Definition respace_head (blocks3 : list block) : list block :=
   | b0 :: rest => mkBlock (respace false (b_specs b0)) (negb (Nat.eqb (List.length (b_specs b0)) 1)) (b_id b0) :: rest
   end.
 
+(* steps 10-12 on the blocks after additions *)
+Definition finish_blocks (required : list string) (aliases : amap) (added : bool) (blocks2 : list block) : list block * list N :=
+  let upd := map (update_block required aliases) blocks2 in
+  let blocks3 := map fst upd in
+  let deleted := map (fun bd => b_id (fst bd)) (filter (fun bd => snd bd) upd) in
+  let blocks4 := if added then respace_head blocks3 else blocks3 in
+  (filter (fun b => negb (existsb (N.eqb (b_id b)) deleted)) blocks4, deleted).
+
 Definition rebuild_blocks (required : list string) (aliases found : amap) (ordered : list string) (blocks : list block)
   : list block * list N * bool * bool :=
   let missing := filter (fun p => negb (ahas found p)) ordered in
@@ -170,11 +178,15 @@ Definition rebuild_blocks (required : list string) (aliases found : amap) (order
   let new_block := added && (match blocks with [] => true | _ => false end) in
   let blocks1 := if new_block then [mkBlock [] false 0] else blocks in
   let blocks2 := add_missing aliases missing added blocks1 in
-  let upd := map (update_block required aliases) blocks2 in
-  let blocks3 := map fst upd in
-  let deleted := map (fun bd => b_id (fst bd)) (filter (fun bd => snd bd) upd) in
-  let blocks4 := if added then respace_head blocks3 else blocks3 in
-  (filter (fun b => negb (existsb (N.eqb (b_id b)) deleted)) blocks4, deleted, new_block, added).
+  let '(bs, deleted) := finish_blocks required aliases added blocks2 in
+  (bs, deleted, new_block, added).
+
+Definition names_aliases (resolve : string -> option string) (local : string) (alias : amap)
+           (all_blocks : list block) (used : list string) : option (amap * amap) :=
+  match resolve_all resolve (eff_of local alias all_blocks used) (in_use local used) [] with
+  | inl _ => None
+  | inr resolved => Some (assign_names resolved (eff_of local alias all_blocks used) (sort_by (fun p => p) (required_paths local alias all_blocks used)))
+  end.
 
 Definition update_imports (resolve : string -> option string) (local : string) (alias : amap)
            (all_blocks : list block) (used : list string) : outcome :=
